@@ -58,9 +58,11 @@ def gen(cs, rnd, n, fifo_share=0.3):
         # the endless continuation repeats the last value; with --unique repeats are dropped, so the tail itself must suffice (it does: need+6 values)
         cyc = PL.G.canonical(tail[-1] if not cfg["unique"] else tail[-1]) + sep
         use_fifo = rnd.random() < fifo_share
-        run = {"argv": PL.cfg_argv(cfg, rnd), "stdin": hexs(data), "cycle": hexs(cyc), "cap": 4 << 20, "timeout_ms": 30000}
+        # options that have nothing to say on a clean input: the error policy, the regex cache, the JSON style
+        extra = rnd.choice([[], [], ["--on-error=stderr"], ["--on-error=stdout"], ["--on-error=panic"], ["--regular-expression-cache-size=2"], ["--style=consise"]])
+        run = {"argv": PL.cfg_argv(cfg, rnd, extra), "stdin": hexs(data), "cycle": hexs(cyc), "cap": 4 << 20, "timeout_ms": 30000}
         if use_fifo:
-            run = {"argv": PL.cfg_argv(cfg, rnd) + ["@FIFO"], "stdin": "", "fifo": {"prefix": hexs(data), "cycle": hexs(cyc), "cap": 4 << 20}, "timeout_ms": 30000}
+            run = {"argv": PL.cfg_argv(cfg, rnd, extra) + ["@FIFO"], "stdin": "", "fifo": {"prefix": hexs(data), "cycle": hexs(cyc), "cap": 4 << 20}, "timeout_ms": 30000}
         cs.add({"kind": "stop", "cfg": cfg, "input": [enc(v) for v in vals], "ends": ends, "slack": SLACK_FILE if use_fifo else SLACK_STDIN,
                 "runs": [run], "src": "fifo" if use_fifo else "stdin"})
 
